@@ -9,6 +9,11 @@ Every verdict is decided by the textbook model of `Model/Paillier.lean` (`enc N 
 (1+N)^m · r^N mod N²` on GMP naturals, λ-based decryption, the group/plaintext/nonce algebra) and
 of `Model/ElGamal.lean` instantiated with the curve arithmetic of `Model/Curves.lean`.
 
+The secret-key mirrors of the model (`decCRT`, `openCRT`, `encSk`, `noiseSk`, `ctScalarSk`,
+`invModSk`, `rerandSk`, `nonceScalarSk`, `nonceMulSk` — the definitions `Props/C16.lean` proves
+equal to the textbook ones) are evaluated next to the textbook value on every `dec`, `open` and
+`skops` line; a disagreement there is a broken model (`UNSUPPORTED`), never a pass.
+
 `spec` is used where the property fixes the value (textbook ciphertext, decrypted plaintext,
 homomorphic images, membership decisions); `mirror` where the model only follows an implementation
 choice (reduction of over-long constructor inputs, error class names, order of validation).
@@ -90,12 +95,15 @@ def egHom (C : Params) (a : Nat) (path kind : String) (M : Pt) (r : Nat) (c : Pt
   let h := ElGamal.pub o g a
   match kind, operands with
   | "op", [m2s, r2s, c2as, c2bs] => do
-    let M2 ← parse? C m2s
-    let r2 ← hexToNat? r2s
-    let c2a ← parse? C c2as
-    let c2b ← parse? C c2bs
-    if ElGamal.enc o g h M2 r2 != (c2a, c2b) then none
-    some (ElGamal.ctOp o c (c2a, c2b), add C M M2, (r + r2) % C.n)
+    -- one or several further operands (comma lists of equal length), each a valid encryption
+    let Ms ← (m2s.splitOn ",").mapM (parse? C)
+    let rs ← (r2s.splitOn ",").mapM hexToNat?
+    let cas ← (c2as.splitOn ",").mapM (parse? C)
+    let cbs ← (c2bs.splitOn ",").mapM (parse? C)
+    if Ms.isEmpty || Ms.length ≠ rs.length || Ms.length ≠ cas.length || Ms.length ≠ cbs.length then none
+    let cs := List.zip cas cbs
+    if !(List.zip Ms (List.zip rs cs)).all (fun (Mi, ri, ci) => ElGamal.enc o g h Mi ri == ci) then none
+    some (cs.foldl (ElGamal.ctOp o) c, Ms.foldl (add C) M, (rs.foldl (· + ·) r) % C.n)
   | "inv", [] => some (ElGamal.ctInv o c, neg C M, (C.n - r % C.n) % C.n)
   | "scal", [ks] => do
     let k ← hexToNat? ks
